@@ -18,6 +18,10 @@ type intrinsicFn func(e *Engine, st *State, fr *Frame, args []Value, in *ssa.Cal
 var intrinsics = map[string]intrinsicFn{}
 
 var intrinsicDoc = map[string]string{
+	"bytes.Clone":                        "returns a fresh copy with equal contents",
+	"bytes.Equal":                        "true iff same length and contents",
+	"crypto/subtle.ConstantTimeCompare":  "1 iff same length and contents",
+	"(crypto.Hash).Size":                 "digest size table of the registered hash identifiers 1..19; panics otherwise (obligation at the call site)",
 	"(*golang.org/x/crypto/cryptobyte.String).ReadASN1ObjectIdentifier": "true iff next TLV is a DER OBJECT IDENTIFIER with well-formed base-128 content (oidwf, uninterpreted); advances; value abstract",
 	"(encoding/asn1.ObjectIdentifier).Equal":                            "against a constant OID: true iff the parsed content octets equal the constant's canonical DER content (bijection of X.690 8.19 encodings on well-formed content)",
 	"math/bits.Add64": "sum + 2^64*carryOut = x + y + carry, carryOut in {0,1} (requires carry in {0,1})",
@@ -271,6 +275,84 @@ func init() {
 		g := a.reg.ghostBytes
 		st.assume(mkImplies(eq, mkApp("oidwf", SBool, e.dynArr(st, g.reg), g.off, g.length)))
 		return eq
+	}
+	intrinsics["bytes.Clone"] = func(e *Engine, st *State, fr *Frame, args []Value, in *ssa.Call) Value {
+		e.usedIntrinsic("bytes.Clone")
+		src := args[0].(*SliceVal)
+		if src.reg == nil {
+			return src
+		}
+		if !src.length.IsConst() {
+			// fresh region with the same contents (symbolic length)
+			r := e.newRegion(e.freshName("clone"), src.elem, true)
+			r.dyn = true
+			r.created = st.epoch + 1
+			r.dynLen = src.length
+			arr := &Term{Op: "var", Sort: SArr, Name: r.name + ".arr", Lo: big0, Hi: maxU8}
+			st.mem.cells[pathKey(r.id, nil)] = arr
+			// contents are described lazily: element k equals source element k (instantiated on reads via a hypothesis per use is not needed by this code base: clones of symbolic length are only returned)
+			return &SliceVal{reg: r, off: mkInt64(0), length: src.length, capacity: src.length, elem: src.elem, backingN: -1}
+		}
+		n := src.length.Val.Int64()
+		at := types.NewArray(src.elem, n)
+		r := e.newRegion(e.freshName("clone"), at, true)
+		r.created = st.epoch + 1
+		for i := int64(0); i < n; i++ {
+			st.mem.cells[pathKey(r.id, []int{int(i)})] = e.sliceElem(st, src, mkInt64(i))
+		}
+		return &SliceVal{reg: r, off: mkInt64(0), length: src.length, capacity: src.length, elem: src.elem, backingN: n}
+	}
+	bytesEq := func(e *Engine, st *State, a, b *SliceVal) *Term {
+		if a.reg == nil || b.reg == nil {
+			la, lb := mkInt64(0), mkInt64(0)
+			if a.reg != nil {
+				la = a.length
+			}
+			if b.reg != nil {
+				lb = b.length
+			}
+			return mkAnd(mkEq(la, mkInt64(0)), mkEq(lb, mkInt64(0)))
+		}
+		if a.length.IsConst() && b.length.IsConst() {
+			if a.length.Val.Cmp(b.length.Val) != 0 {
+				return tFalse
+			}
+			var cs []*Term
+			for i := int64(0); i < a.length.Val.Int64(); i++ {
+				cs = append(cs, mkEq(e.sliceElem(st, a, mkInt64(i)), e.sliceElem(st, b, mkInt64(i))))
+			}
+			return mkAnd(cs...)
+		}
+		e.fail("byte-slice comparison with symbolic lengths")
+		return nil
+	}
+	intrinsics["bytes.Equal"] = func(e *Engine, st *State, fr *Frame, args []Value, in *ssa.Call) Value {
+		e.usedIntrinsic("bytes.Equal")
+		return bytesEq(e, st, args[0].(*SliceVal), args[1].(*SliceVal))
+	}
+	intrinsics["crypto/subtle.ConstantTimeCompare"] = func(e *Engine, st *State, fr *Frame, args []Value, in *ssa.Call) Value {
+		e.usedIntrinsic("crypto/subtle.ConstantTimeCompare")
+		return mkIte(bytesEq(e, st, args[0].(*SliceVal), args[1].(*SliceVal)), mkInt64(1), mkInt64(0))
+	}
+	intrinsics["(crypto.Hash).Size"] = func(e *Engine, st *State, fr *Frame, args []Value, in *ssa.Call) Value {
+		e.usedIntrinsic("(crypto.Hash).Size")
+		h := args[0].(*Term)
+		// sizes of the registered hash identifiers (crypto.Hash documentation); unknown identifiers panic
+		sizes := map[int64]int64{1: 16, 2: 16, 3: 20, 4: 28, 5: 32, 6: 48, 7: 64, 8: 36, 9: 20, 10: 28, 11: 32, 12: 48, 13: 64, 14: 28, 15: 32, 16: 32, 17: 32, 18: 48, 19: 64}
+		if h.IsConst() {
+			if s, ok := sizes[h.Val.Int64()]; ok {
+				return mkInt64(s)
+			}
+			e.addObligation(st, fr, "safety", "crypto.Hash.Size", tFalse, "crypto.Hash.Size panics for unknown hash identifiers")
+			return mkInt64(0)
+		}
+		e.addObligation(st, fr, "safety", "crypto.Hash.Size", mkAnd(mkLe(mkInt64(1), h), mkLe(h, mkInt64(19))), "crypto.Hash.Size panics for unknown hash identifiers (precondition: known hash id)")
+		st.assume(mkAnd(mkLe(mkInt64(1), h), mkLe(h, mkInt64(19))))
+		res := mkInt64(0)
+		for k := int64(19); k >= 1; k-- {
+			res = mkIte(mkEq(h, mkInt64(k)), mkInt64(sizes[k]), res)
+		}
+		return res
 	}
 	intrinsics["(*errors.errorString).Error"] = func(e *Engine, st *State, fr *Frame, args []Value, in *ssa.Call) Value {
 		return &StrVal{}
